@@ -20,6 +20,13 @@ def gen_cases(tier, rng):
     for _ in range(6000 if tier == "quick" else 60000):
         n = rng.randrange(4, 25)
         cases.append("life32 c:0:1 " + " ".join(rng.choice(ALPHA13) for _ in range(n)))
+    # histories in which EVERY abort is recoverable ('!' prefix): whatever was refused leaves no trace (World.wrun_rec)
+    ralpha = ["!" + a for a in ALPHA13 if not a.startswith(("ur", "gs", "go", "d:", "c:"))] + ["gs:0:0", "gs:0:1", "go:0:0", "go:1:0", "occ:0", "q:0", "q:1"]
+    for d in range(1, 3):
+        for ops in itertools.product(ralpha, repeat=d):
+            cases.append("life32 c:0:1 " + " ".join(ops))
+    for _ in range(3000 if tier == "quick" else 30000):
+        cases.append("life32 c:0:1 " + " ".join(rng.choice(ralpha) for _ in range(rng.randrange(4, 20))))
     # pools larger than the back end's table: verif 4 slots, no-op 64 slots
     for pre in (["fill:0:4"], ["fill:0:3", "r:0:0:1"], ["fill:0:3", "r:0:0:1", "u:0"], ["r:0:0:1", "fill:0:3", "ma:0:1"], ["fill:0:5"]):
         for tail in (["r:1:0:2"], ["r:1:0:2", "q:1"], ["u:0", "r:1:0:2", "go:1:0"], ["gs:0:0", "gs:0:3", "r:1:0:2"]):
